@@ -18,6 +18,12 @@ def analyze(sched, res):
     """-> list of (property, step, text): what the property texts require and the log does not show"""
     V = []
     prefix = sched["prefix"]
+    if res.get("new") == "refused":
+        # MqttClient::new refused the configuration (its asserts): fine for a prefix that leaves no room for
+        # <prefix>/settings<longest path> in a topic buffer; for any other prefix no dump is ever published
+        if sched.get("kind") == "prefix-over":
+            return V
+        return [("C10", 0, "MqttClient::new refused the prefix of %d bytes although <prefix>/settings<path> fits the topic buffer for every leaf: nothing is ever published" % len(prefix))]
     all_leaves = [p for p, _ in res["leaves"]]
     big_cfg = sched.get("buffer", 4096) < 2048
     walk = dict(kind="dump", leaves=list(all_leaves), pos=0, cd=None, resp=None, initial=True)   # MqttClient::new
@@ -358,7 +364,7 @@ def run_mqtt_prop(chk, prop):
         s = dict(r["scheds"][i])
         s["steps"] = s["steps"][:k + 1]
         chk.violation(dict(property=prop, kind="failing-input", schedule=s, failing_step=k, property_requires=why,
-                           observed_step=_short(r["res"][i]["steps"][k]), seed=chk.seed, tier=chk.tier,
+                           observed_step=(_short(r["res"][i]["steps"][k]) if k < len(r["res"][i]["steps"]) else dict(new=r["res"][i].get("new"))), seed=chk.seed, tier=chk.tier,
                            how_to_replay="./check %s --replay <this file>" % prop, other_failing=len(fresh) - 1), True)
     elif (not a["ok"]) or tie or mism_in:
         first = [dict(schedule_kind=r["scheds"][i]["kind"], settings=r["scheds"][i]["settings"], step=k, input=r["scheds"][i]["steps"][k] if k < len(r["scheds"][i]["steps"]) else None,
